@@ -82,6 +82,33 @@ func rangeLike(s string, boundary func(string) bool) bool {
 	return true
 }
 
+// BoundaryOrder classifies a lexically valid range / length argument by the
+// position of min and max: "misordered" when some part has min as its upper or
+// max as its lower boundary next to another boundary (x..min, max..x: lexically
+// fine, but the parts must be in ascending order - a semantic matter, rejecting
+// early is as good as rejecting late), "degenerate" when some part is min..min
+// or max..max (legal: exactly the smallest / largest value), "" otherwise.
+func BoundaryOrder(s string) string {
+	class := ""
+	for _, part := range strings.Split(s, "|") {
+		part = trimOptSep(part)
+		i := strings.Index(part, "..")
+		if i < 0 {
+			continue
+		}
+		lo, hi := trimOptSep(part[:i]), trimOptSep(part[i+2:])
+		switch {
+		case (lo == "min" && hi == "min") || (lo == "max" && hi == "max"):
+			if class == "" {
+				class = "degenerate"
+			}
+		case hi == "min" || lo == "max":
+			class = "misordered"
+		}
+	}
+	return class
+}
+
 // EdgeSpace reports leading or trailing white space, about which the ABNF
 // string productions are strict but which this model leaves unsettled.
 func EdgeSpace(s string) bool { return s != "" && trimOptSep(s) != s }
